@@ -12,7 +12,20 @@ import importlib
 import sys
 from typing import Any, Dict, List, Optional, Sequence
 
+import atexit
+import shutil
+import tempfile
+
 ALL_SYSTEMS = "measured.systems"
+
+# Worlds re-import the library many times per process.  The sandbox sets
+# PYTHONDONTWRITEBYTECODE, which would recompile the 4000-line generated parser on every
+# import; keep byte code in a per-process scratch directory instead (validated against the
+# source's mtime/size by the import system, so edits to /repo are always picked up).
+_PYC = tempfile.mkdtemp(prefix="vf_pyc_")
+sys.pycache_prefix = _PYC
+sys.dont_write_bytecode = False
+atexit.register(shutil.rmtree, _PYC, True)
 
 SHIPPED_MODULES = [
     "si", "us", "avoirdupois", "troy", "energy", "astronomical", "natural", "metric",
